@@ -26,6 +26,23 @@ type TRule struct {
 	W    []int64     `json:"w"`
 	Atom mgjson.Atom `json:"atom"`
 	Ann  []any       `json:"ann"`
+	Lit2 *TLit       `json:"lit2,omitempty"`
+}
+
+// TLit is the optional second body literal of a temporal rule.
+type TLit struct {
+	Op   string      `json:"op"`
+	W    []int64     `json:"w"`
+	Atom mgjson.Atom `json:"atom"`
+	Ann  []any       `json:"ann"`
+}
+
+func tlitText(op string, w []int64, atom mgjson.Atom, ann []any) string {
+	lit := mgjson.AtomText(atom) + annText(ann)
+	if op != "none" {
+		lit = fmt.Sprintf("%s[%ds, %ds] %s", opSym[op], w[0], w[1], lit)
+	}
+	return lit
 }
 
 type TCase struct {
@@ -91,6 +108,9 @@ func tprogramText(c TCase, ruleOrder []int, factOrder []int) string {
 	}
 	for _, r := range c.Rules {
 		temporal[r.Atom.P] = len(r.Atom.A)
+		if r.Lit2 != nil {
+			temporal[r.Lit2.Atom.P] = len(r.Lit2.Atom.A)
+		}
 		if r.Ht[0].(string) != "none" {
 			temporal[r.H.P] = len(r.H.A)
 		}
@@ -114,9 +134,9 @@ func tprogramText(c TCase, ruleOrder []int, factOrder []int) string {
 	}
 	for _, k := range ruleOrder {
 		r := c.Rules[k]
-		lit := mgjson.AtomText(r.Atom) + annText(r.Ann)
-		if r.Op != "none" {
-			lit = fmt.Sprintf("%s[%ds, %ds] %s", opSym[r.Op], r.W[0], r.W[1], lit)
+		lit := tlitText(r.Op, r.W, r.Atom, r.Ann)
+		if r.Lit2 != nil {
+			lit += ", " + tlitText(r.Lit2.Op, r.Lit2.W, r.Lit2.Atom, r.Lit2.Ann)
 		}
 		fmt.Fprintf(&sb, "%s%s :- %s.\n", mgjson.AtomText(r.H), annText(r.Ht), lit)
 	}
